@@ -675,6 +675,47 @@ def r01_12(run, model):
     run.floor("functions of the rewriting passes that are handed a sub-term", n, 39)
 
 
+def r01_14(run, model, rid="R01.14", file_re=None):
+    """analysis walkers (capture / liveness / effect / reachability collectors: traversals that return nothing, a bool or a set) look at
+    every sub-term whatever its shape"""
+    run.rule(rid, "an analysis walker visits a sub-term unconditionally: in every traversal that returns (), bool or a set (capture walk, free "
+                  "variables, called functions, used packages, effect predicates) no sub-term binding is handed on only under a test of its "
+                  "own shape - every use of it outside conditions lies in a branch of an `if` whose condition mentions it while another way "
+                  "through that `if` never does (Option-typed children are unwrapped, not tested)")
+    trs = P.discover(model, include_pprint=False)
+    n = 0
+    fns = set()
+    for t in trs:
+        ret = (t.fn.node.get("ret") or "").replace(" ", "")
+        if t.enum_name == "Ty" or (file_re and not re.search(file_re, t.fn.file)):
+            continue
+        if ret and not re.match(r"^(\(\)|bool|(std::collections::)?(Hash|BTree|Index)Set<.*)$", ret):
+            continue
+        variants = {v["name"]: v for v in t.enum["variants"]}
+        for vname, lst in sorted(t.covered.items()):
+            v = variants.get(vname)
+            if v is None:
+                continue
+            kids = P.child_fields(v, t.enum["name"])
+            ftys = {(f["name"] if f["name"] is not None else str(i)): f["ty"] for i, f in enumerate(v["fields"])}
+            for arm, alt in lst:
+                b, _rest = P.arm_field_bindings(alt)
+                for k in kids:
+                    nm = b.get(k)
+                    if not isinstance(nm, str) or ftys[k].replace(" ", "").startswith("Option<"):
+                        continue
+                    n += 1
+                    fns.add(t.fn.qual)
+                    g = P.shape_conditional_only(arm["body"], nm)
+                    run.ob(rid, f"{t.fn.name}|{vname}.{k} visited whatever its shape", g is None, site(t.fn.file, (g or arm)["sp"]),
+                           f"`{nm}` is walked unconditionally" if g is None else
+                           f"`{nm}` is handed on only inside `if {S.norm_ws(run.facts.text(t.fn.file, g['cond']['sp']))[:90]}`",
+                           witness="fn twice(f: (int32) -> int32) -> (int32) -> int32 { |x| f(f(x)) }: a captured function value that is only "
+                                   "called is skipped by the capture walk when a bare-name callee is not visited - the environment struct has no "
+                                   "field for it and the apply function refers to the undeclared `f__2`")
+    run.floor(f"{rid}: sub-term bindings of analysis walkers examined", n, 88 if not file_re else 10)
+
+
 def run(run, model):
     run.try_rule(r01_6, model)
     trs = P.discover(model, include_pprint=True)
@@ -686,6 +727,7 @@ def run(run, model):
     run.try_rule(r01_10, model)
     run.try_rule(r01_11, model)
     run.try_rule(r01_12, model)
+    run.try_rule(r01_14, model)
     # emitted pieces keep their order: no new reversal, swap or sort (G-SEQ, shared with C09 R09.17)
     from rules import gseq
     run.try_rule(gseq.r_seq, model, "R01.13")
